@@ -27,14 +27,18 @@ for pid in props:
         "engine": "+".join(backends),
         "level_claimed": {
             "category": c.get("category", "proof"),
-            "text": ("Deductive proof of contracts on the real functions (text extracted mechanically from /repo on every run): "
+            "text": (("Deductive proof of contracts on the real functions (text extracted mechanically from /repo on every run): "
+                      if c.get("category", "proof") == "proof" else
+                      "BOUNDED check of contracts on the real functions (Kani/CBMC with a stated bound on input length; a bounded "
+                      "stand-in, NOT counted as proved; text extracted mechanically from /repo on every run): ")
                      + c["decided"] + ".  NOT decided by this check: " + c["undecided"] + "."),
             "design_ref": "DESIGN.md section 4, " + pid,
         },
         "level_note": c.get("note", "Trusted: Verus/Z3 (and Kani/CBMC where used), the extraction rewrites R1-R7 counted in the evidence, "
                             "assumed contracts of callees outside the unit (listed per run under coverage.trusted_base; /repo "
                             "callees among them are audited by execution, not proved). Units: " + ", ".join(serving)),
-        "technique": c.get("technique", "contract-based deductive verification (" + " + ".join(
+        "technique": c.get("technique", ("contract-based deductive verification (" if c.get("category", "proof") == "proof" else
+                                         "contract harness, bounded model checking stand-in (") + " + ".join(
             {"verus": "Verus requires/ensures/invariants on extracted real code", "kani": "Kani/CBMC harnesses on extracted real code"}[b]
             for b in backends) + ")"),
     })
